@@ -25,6 +25,7 @@ KINDS = {
     "session-close": ("[]", "[SClose; LLoad; LCas; LClean; LNotify]"),
     "peer-session-close": ("[]", "[SClose; LLoad; LCas; LClean; LNotify]"),
     "peer-death": ("[]", "[SClose; LLoad; LCas; LClean; LNotify]"),
+    "peer-close-queue-full": ("[]", "[PClose1; PClose2]"),
     # a read for 8 bytes parked inside OnData with 4 bytes there (w_min = 8, see case_to_coq)
     "ondata-local-session-close": ("[EAdd 4; EFin]", "[SClose; LLoad; LCas; LClean; LNotify]"),
     "ondata-peer-session-close": ("[EAdd 4; EFin]", "[SClose; LLoad; LCas; LClean; LNotify]"),
@@ -53,6 +54,8 @@ def eval_cases(cases, tag):
     txt.append("Print M.")
     txt.append("Definition F := Eval vm_compute in flush_full_result.")
     txt.append("Print F.")
+    txt.append("Definition Q := Eval vm_compute in peer_close_queue_full.")
+    txt.append("Print Q.")
     rc, out, _ = core.coq_eval("cases_%s_%s_%d" % (PROP, tag, os.getpid()), "\n".join(txt))
     if rc != 0:
         raise RuntimeError("coqc on the generated cases failed: " + out[-1500:])
@@ -66,6 +69,9 @@ def eval_cases(cases, tag):
     bad = [(int(q.group(1)), int(q.group(2))) for q in re.finditer(r"\(\s*(\d+)\s*,\s*(\d+)\s*\)", mm)]
     fm = re.search(r"F\s*=\s*\(\s*(\w+)\s*,\s*(\d+)", out)
     flush = (fm.group(1), int(fm.group(2))) if fm else None
+    qm = re.search(r"Q\s*=\s*\(\s*(true|false)\s*,\s*(true|false)\s*,\s*(true|false)\s*\)", out)
+    if not qm or (qm.group(1), qm.group(2), qm.group(3)) != ("false", "false", "true"):
+        raise RuntimeError("model: a Close issued while the io queue is full must succeed and leave its notification in the socket; got %r" % (qm and qm.groups(),))
     return bad, flush
 
 
